@@ -14,7 +14,7 @@ RULE = ("every integer 0..N and 40 large ones written plainly, with thousands se
         "(empty name, missing hyphen, negative, non-numeric, reversed, unknown unit); parse_region against chromosome "
         "sizes; URI spellings. Oracle: exact Fraction arithmetic (ref_number). Non-trivial: the numeral uses separators, "
         "a decimal point or a unit, or the string must be refused. Distinct by construction.")
-EXTRA_LEGS = "numerals padded with trailing zeros beyond the unit's decimal places."
+EXTRA_LEGS = "numerals padded with trailing zeros beyond the unit's decimal places." + ' object-strings: the same region strings resolved through extent / bins().fetch / matrix().fetch on ONE Cooler object before and after its chromosomes are renamed among each other.'
 BOUNDS = {"quick": "N = 100000", "thorough": "N = 2000000"}
 ASSUMPTIONS = ["unit-less decimals ('1000.0'), misgrouped commas, inner whitespace, a second colon and trailing garbage after "
                "a complete range are not classified by the statement and are not judged",
